@@ -455,6 +455,18 @@ func (g *Gen) destRaw(n *Node, t reflect.Type, populated bool) reflect.Value {
 			fv := v.FieldByName(GoName(f.Key))
 			fv.Set(g.DestValue(f.Node, fv.Type(), populated))
 		}
+		// two pointer fields of one type may hold the same address (shared pointees are ordinary Go data): each node
+		// still judges the value it finds.  (Only below nodes that write nothing: a write through one would show in the other.)
+		if fk := r.Fork(0xa11a); fk.P(60) {
+			for i, f1 := range n.Fields {
+				for _, f2 := range n.Fields[i+1:] {
+					a, b := v.FieldByName(GoName(f1.Key)), v.FieldByName(GoName(f2.Key))
+					if f1.Node.Kind == KPtr && f2.Node.Kind == KPtr && a.Type() == b.Type() && !a.IsNil() && !hasWriters(f1.Node) && !hasWriters(f2.Node) {
+						b.Set(a)
+					}
+				}
+			}
+		}
 		for i, x := range n.Extra {
 			v.FieldByName(x).SetInt(int64(900 + i))
 		}
